@@ -22,6 +22,7 @@ import (
 	"go/ast"
 	"go/constant"
 	"go/parser"
+	"go/printer"
 	"go/token"
 	"go/types"
 	"os"
@@ -801,6 +802,88 @@ func main() {
 	fmt.Fprintf(&sb, "Definition optimize_int_literals : list Z := %s.\n", zl(ints))
 	fmt.Fprintf(&sb, "Definition optimize_float_literals : list string := [%s]%%string.\n", quoteAll(floats))
 
+	// Edit: header-field assignments, section readers and the ordered output calls (with "!" when the error is checked)
+	fedit := parse(filepath.Join(dir, "edit.go"))
+	var assigns, sections, calls []string
+	if ed := funcDecl(fedit, "Edit"); ed != nil {
+		checked := map[*ast.CallExpr]bool{}
+		ast.Inspect(ed.Body, func(n ast.Node) bool {
+			switch x := n.(type) {
+			case *ast.IfStmt: // if _, err := call(); err != nil { return ... }
+				if a, ok := x.Init.(*ast.AssignStmt); ok && len(a.Rhs) == 1 {
+					if c, isC := a.Rhs[0].(*ast.CallExpr); isC && returnsErr(x) {
+						checked[c] = true
+					}
+				}
+			case *ast.BlockStmt: // x, err = call(); if err != nil { return err }
+				for i, st := range x.List {
+					if a, ok := st.(*ast.AssignStmt); ok && len(a.Rhs) == 1 && i+1 < len(x.List) {
+						if c, isC := a.Rhs[0].(*ast.CallExpr); isC {
+							if is, isIf := x.List[i+1].(*ast.IfStmt); isIf && is.Init == nil && returnsErr(is) {
+								checked[c] = true
+							}
+						}
+					}
+				}
+			}
+			return true
+		})
+		ast.Inspect(ed.Body, func(n ast.Node) bool {
+			switch x := n.(type) {
+			case *ast.DeferStmt:
+				return false
+			case *ast.AssignStmt:
+				if len(x.Lhs) == 1 && len(x.Rhs) == 1 {
+					if f, ok := selField(x.Lhs[0], "newHeader"); ok {
+						assigns = append(assigns, fmt.Sprintf("(\"%s\", \"%s\")", f, nodeText(x.Rhs[0])))
+					}
+				}
+			case *ast.CallExpr:
+				name := nodeText(x.Fun)
+				switch name {
+				case "io.NewSectionReader":
+					if len(x.Args) == 3 {
+						sections = append(sections, fmt.Sprintf("(\"%s\", \"%s\")", nodeText(x.Args[1]), nodeText(x.Args[2])))
+					}
+				case "os.Create", "os.Rename", "io.Copy", "file.WriteAt", "file.Close", "outfile.Close", "os.Remove", "os.OpenFile", "outfile.Sync", "file.Sync", "os.WriteFile", "file.Truncate", "file.Write", "outfile.Write":
+					tag := name
+					if name == "io.Copy" && len(x.Args) == 2 {
+						tag += "<" + nodeText(x.Args[1]) + ">"
+					}
+					if checked[x] {
+						tag += "!"
+					}
+					calls = append(calls, "\""+tag+"\"")
+				}
+			}
+			return true
+		})
+	} else {
+		gap("edit.go: func Edit not found")
+	}
+	fmt.Fprintf(&sb, "Definition edit_assignments : list (string * string) := [%s]%%string.\n", strings.Join(assigns, "; "))
+	fmt.Fprintf(&sb, "Definition edit_sections : list (string * string) := [%s]%%string.\n", strings.Join(sections, "; "))
+	fmt.Fprintf(&sb, "Definition edit_calls : list string := [%s]%%string.\n", strings.Join(calls, "; "))
+	// headerToJson: the composite literal's fields
+	var hj []string
+	if fn := funcDecl(fdir, "headerToJson"); fn != nil {
+		ast.Inspect(fn.Body, func(n ast.Node) bool {
+			if cl, ok := n.(*ast.CompositeLit); ok && nodeText(cl.Type) == "HeaderJson" {
+				for _, el := range cl.Elts {
+					if kv, isKV := el.(*ast.KeyValueExpr); isKV {
+						hj = append(hj, fmt.Sprintf("(\"%s\", \"%s\")", nodeText(kv.Key), nodeText(kv.Value)))
+					}
+				}
+				return false
+			}
+			return true
+		})
+	}
+	if len(hj) == 0 {
+		gap("directory.go: headerToJson composite literal not found")
+	}
+	fmt.Fprintf(&sb, "Definition header_to_json_fields : list (string * string) := [%s]%%string.\n", strings.Join(hj, "; "))
+
 	for _, g := range gaps {
 		fmt.Fprintf(&sb, "(* translator_gap: %s *)\n", strings.ReplaceAll(g, "*)", "* )"))
 	}
@@ -825,4 +908,26 @@ func quoteAll(v []string) string {
 		p[i] = "\"" + x + "\""
 	}
 	return strings.Join(p, "; ")
+}
+
+// nodeText prints an expression on one line without redundant spaces.
+func nodeText(n ast.Node) string {
+	var b strings.Builder
+	printer.Fprint(&b, token.NewFileSet(), n)
+	t := strings.Join(strings.Fields(b.String()), " ")
+	return strings.ReplaceAll(t, "\"", "'")
+}
+
+// returnsErr: the if statement tests err != nil and its body returns.
+func returnsErr(is *ast.IfStmt) bool {
+	b, ok := is.Cond.(*ast.BinaryExpr)
+	if !ok || b.Op != token.NEQ || nodeText(b.X) != "err" || nodeText(b.Y) != "nil" {
+		return false
+	}
+	for _, st := range is.Body.List {
+		if _, isR := st.(*ast.ReturnStmt); isR {
+			return true
+		}
+	}
+	return false
 }
